@@ -17,7 +17,7 @@ from .model import Program, AnalysisError
 from .report import Ctx, finish
 
 
-def run_property(prop: str, repo: str, tier: str, overrides=None, confirm: bool = True):
+def run_property(prop: str, repo: str, tier: str, overrides=None, confirm: bool = True, strict: bool = False):
     """returns (ctx, module).  Raises AnalysisError.
 
     confirm: a VIOLATION that is not listed as known is re-examined on two behaviour-preserving respellings of the whole tree
@@ -36,13 +36,47 @@ def run_property(prop: str, repo: str, tier: str, overrides=None, confirm: bool 
     from .callgraph import register_call_signatures
     program.resolved_call_signatures = register_call_signatures(program)
     ctx = Ctx(prop, program, tier)
-    mod.run(ctx)
+    # functions rewritten (not locally edited) relative to the reviewed reference, restricted to the files this property looks at
+    from . import reference
+    ref = reference.load_reference() or {}
+    scope = set(ref.get("scope", {}).get(prop, []))
+    strict = strict or os.environ.get("MSDMLINT_STRICT") == "1"       # strict: the reference is not consulted (used by the confirmation runs and the twin harness)
+    dist_all = {} if strict else reference.function_distances(program)
+    dist = {k: d for k, d in dist_all.items() if not scope or k.split("::")[0] in scope}
+    rewritten = reference.scope_rewritten(dist)            # this property's files were refactored as a whole
+    tree_rewritten = reference.scope_rewritten(dist_all)   # the change to the tree is refactoring-sized: every changed function is part of it
+    restructured = dict(dist) if (rewritten or tree_rewritten) else {k: d for k, d in dist.items() if d >= reference.RESTRUCTURED}
+    ctx.extra["restructured_functions"] = restructured
+    ctx.extra["scope_rewritten"] = rewritten
+    try:
+        mod.run(ctx)
+    except Exception as e:
+        if restructured and os.environ.get("MSDMLINT_STRICT") != "1":
+            # a rule could not even find its anchors, and code in its scope was rewritten: nothing can be decided there
+            ctx.not_decided = [f"{type(e).__name__}: {str(e)[:200]}"]
+            ctx.obs = [o for o in ctx.obs if o.verdict != "VIOLATION" or reference.key_of(o.site, o.function) not in restructured]
+            for o in ctx.obs:
+                pass
+            _withdraw(ctx, prop, restructured)
+            ctx.minima.clear()
+            ctx.minima_error = None
+            return ctx, mod
+        raise
+    if os.environ.get("MSDMLINT_STRICT") != "1":
+        _withdraw(ctx, prop, restructured)
     if confirm and os.environ.get("MSDMLINT_NO_CONFIRM") != "1":
         _confirm(prop, repo, tier, overrides, program, ctx)
     try:
         ctx.check_minima()
         ctx.minima_error = None
     except AnalysisError as e:
+        if dist and os.environ.get("MSDMLINT_STRICT") != "1":
+            # an idiom is no longer recognised and code in this property's files differs from the reviewed reference: not decided there
+            # (on the reference tree itself nothing differs, so a rule that stops matching there is still an ANALYSIS-ERROR)
+            ctx.extra["restructured_functions"] = ctx.extra.get("restructured_functions") or dict(dist)
+            ctx.not_decided = getattr(ctx, "not_decided", []) + [str(e)[:200]]
+            ctx.minima_error = None
+            return ctx, mod
         # a definite violation is reported in preference to "anchor vanished"
         from .report import load_known
         known = {k["key"] for k in load_known().get("known", []) if k.get("property") == prop}
@@ -50,6 +84,26 @@ def run_property(prop: str, repo: str, tier: str, overrides=None, confirm: bool 
             raise
         ctx.minima_error = str(e)
     return ctx, mod
+
+
+def _withdraw(ctx, prop, restructured):
+    """reports located in a restructured function are withdrawn (see msdmlint/reference.py)."""
+    from . import reference
+    from .report import load_known
+    known = {k["key"] for k in load_known().get("known", []) if k.get("property") == prop}
+    n = 0
+    for o in ctx.obs:
+        if o.verdict == "VIOLATION" and o.key(prop) not in known:
+            d = restructured.get(reference.key_of(o.site, o.function))
+            if d is None and ctx.extra.get("scope_rewritten"):
+                d = sum(restructured.values())      # the files were refactored as a whole: reports anywhere in them are withdrawn
+            if d is not None:
+                o.verdict = "UNKNOWN"
+                o.detail = (o.detail + " " if o.detail else "") + f"[withdrawn: the code differs from the reviewed reference by {d} statements here / in this property's files (rewritten, not locally edited); " \
+                                                                  "the structural rules cannot tell a defect from a different spelling there]"
+                n += 1
+    if restructured:
+        ctx.extra["withdrawn_reports"] = n
 
 
 def _confirm(prop, repo, tier, overrides, program, ctx):
@@ -72,7 +126,7 @@ def _confirm(prop, repo, tier, overrides, program, ctx):
                     warnings.simplefilter("ignore")
                     compile(new, m.relpath, "exec")
                 ov[m.relpath] = new
-            ctx2, _ = run_property(prop, repo, tier, ov, confirm=False)
+            ctx2, _ = run_property(prop, repo, tier, ov, confirm=False, strict=True)
         except Exception as e:      # the respelled tree could not be analysed: the original verdicts stand
             ctx.extra["confirmation"][kind] = f"not analysable ({type(e).__name__}: {str(e)[:120]})"
             continue
